@@ -414,6 +414,19 @@ class Session:
                 self.dead.add(l)
         elif kind == 'conn':
             for run in (self.a, self.b):
+                # a throw-away connection that speaks before Hello and claims to be A: whatever the monitor is shown of it
+                # must not bear A's (or anybody's) name
+                run.connect_slot('D', hello=False)
+                cd_ = run.slots['D']
+                sd_ = run.bus.next_serial(cd_)
+                md_ = R.Msg(R.MT_CALL, 0, sd_, [(R.F_PATH, (b'o', R.BUS_PATH if isinstance(R.BUS_PATH, bytes) else R.BUS_PATH.encode())), (R.F_INTERFACE, (b's', R.BUS)), (R.F_MEMBER, (b's', b'GetId')),
+                                                (R.F_DESTINATION, (b's', R.BUS)), (R.F_SENDER, (b's', run.uname['A']))], [])
+                run.send('D', md_)
+                if run is self.a:
+                    sent.append(('D', md_))
+                if run.slots.get('D') is not None:
+                    run.close_slot('D')
+                run.uname['D'] = None
                 run.connect_slot('C', hello=False)
                 c = run.slots['C']
                 s = run.bus.next_serial(c)
